@@ -111,19 +111,19 @@ def snapshot(mol):
 _BASE = {}
 
 
-def base_snapshot(name, args):
-    key = (name, tuple(args))
+def base_snapshot(name, args, params=None):
+    key = (name, tuple(args), bool(params))
     if key not in _BASE:
-        _BASE[key] = snapshot(M.run(M.text(name), args=list(args)))
+        _BASE[key] = snapshot(M.run(M.text(name), args=list(args), params=params))
     return _BASE[key]
 
 
-def mk_set_order(name, args):
+def mk_set_order(name, args, params=None):
     def body(ctx):
-        base = base_snapshot(name, args)
+        base = base_snapshot(name, args, params)
         undo = install_sets(ctx)
         try:
-            mol = M.run(M.text(name), args=list(args))
+            mol = M.run(M.text(name), args=list(args), params=params)
         finally:
             undo()
         got = snapshot(mol)
@@ -336,8 +336,9 @@ def obligations(tier):
             CC + 'set_common_charge_centres', CC + 'find_bonded_titratable_groups', 'propka/group.py:Group.__hash__',
             'propka/coupled_groups.py:NonCovalentlyCoupledGroups.print_out_swaps']
     obs = []
-    for name, args in (('pep8', []), ('pep8', ['-d']), ('lig_MTX', []), ('lig_KNI', []), ('pair_ASP_ASP', ['-d'])):
-        obs.append(Obligation('O1-set-iteration-order[%s%s]' % (name, ',' + ' '.join(args) if args else ''), mk_set_order(name, args), code=code,
+    for name, args, params in (('pep8', [], None), ('pep8', ['-d'], None), ('lig_MTX', [], None), ('lig_KNI', [], None), ('pair_ASP_ASP', ['-d'], M.BURIED),
+                               ('pair_ASP_ASP', [], M.BURIED), ('pep8', ['-d'], M.BURIED)):
+        obs.append(Obligation('O1-set-iteration-order[%s%s%s]' % (name, ',' + ' '.join(args) if args else '', ',buried' if params else ''), mk_set_order(name, args, params), code=code,
                               bounds='micro-structure %s %s; every set built in conformation_container iterates in every order (all permutations up to size 4, '
                                      'rotations and reversal above)' % (name, ' '.join(args)),
                               shims=['set() in propka.conformation_container -> explorer-ordered set'],
